@@ -751,7 +751,7 @@ theorem winv_watchOpen {w : World} (h : WInv w) (q : Query) : WInv (w.watchOpen 
     have hb' : sub'.buf = s.buf := by rw [← hs']
     have hc' : sub'.cache = some c := by rw [← hs']
     have hr' : sub'.refs = s.refs + 1 := by rw [← hs']
-    generalize hw0 : (Watch.mk q key [] (some c.batch) c.pos WState.opened false c.gD c.gP c.gSq []) = wt0
+    generalize hw0 : (Watch.mk q key [] (some c.batch) c.pos WState.opened false 0 c.gD c.gP c.gSq []) = wt0
     have hlive0 : ∀ k, (!wt0.released && decide (wt0.subj = k)) = decide (key = k) := by intro k; rw [← hw0]; simp
     refine ⟨h.rows, h.evIdx, h.qsuf, h.logIdx, nodup_setSub h.keys, ?_, ?_⟩
     · intro x hx
@@ -801,9 +801,9 @@ theorem winv_watchOpen {w : World} (h : WInv w) (q : Query) : WInv (w.watchOpen 
     have hcgP : c.gP = w.log.length := by rw [hc0]
     have hcb : c.batch = snapshotBatch ⟨replay (w.log.take c.gP), c.gP + 2⟩ c.gSq := by
       rw [hcgP, List.take_length, ← h.rows, ← h.evIdx, hc0]
-    generalize hw0 : (Watch.mk q key [] (some (snapshotBatch w.db sq)) (splicePos [] w.db.evIdx) WState.opened false
+    generalize hw0 : (Watch.mk q key [] (some (snapshotBatch w.db sq)) (splicePos [] w.db.evIdx) WState.opened false 0
         (w.log.length - w.queue.length) w.log.length sq []) = wt0
-    have hw0' : wt0 = Watch.mk q key [] (some c.batch) c.pos WState.opened false c.gD c.gP c.gSq [] := by
+    have hw0' : wt0 = Watch.mk q key [] (some c.batch) c.pos WState.opened false 0 c.gD c.gP c.gSq [] := by
       rw [← hw0, hc0]
     have hlive0 : ∀ k, (!wt0.released && decide (wt0.subj = k)) = decide (key = k) := by intro k; rw [← hw0]; simp
     have hok : CacheOk w.disp w.log sub' c := by
